@@ -501,7 +501,10 @@ def run(c):
               'function calls with 0-2 generated axes, gradient, normal, leading minus, add / subtract) printed with random legal whitespace; '
               'single-character edits (delete / insert / replace over a %d-symbol alphabet / swap) of them; AST-level rule violations '
               '(index renamed / dropped / added, variable swapped, factor duplicated, number inside a term, vector denominator / exponent, '
-              'unknown names); raw random strings; every parser entry point.  A case is non-trivial when the string is non-empty; '
+              'unknown names); raw random strings; every parser entry point.  v1 length inference: ASTs with dirac, indexed constants, new / declared '
+              'arguments, stacks and substitutions in every item position (numerators, denominators, exponents, call arguments, stack entries, '
+              'right-hand sides of substitutions) plus AST-level changes of the length structure; lengths decided by unification in the oracle.  '
+              'A case is non-trivial when the string is non-empty; '
               'distinct by (stream, entry, string).' % len(ALPHABET))
     c.assumptions += [
         'strings are over a fixed alphabet (ASCII letters/digits/operators/brackets, blanks, a few non-ASCII letters); python int()/float() '
@@ -512,6 +515,9 @@ def run(c):
         'leaf data of the mesh world (values of fields on either side of the interface, the normal) is evaluated by nutils itself; jump, mean '
         'and the gradient of compound expressions are recomputed exactly (first-order jets)',
         'expression_v1 is not ported to Lean: it is tied by evaluation against the AST reading only (kind exploration)',
+        'v1 inferred lengths: the reading takes "deduced from the expression" as unification over shared indices, additions, stacks, substitutions, the two axes of a dirac '
+        'and all occurrences of one argument; a length fixed nowhere or fixed to two numbers is a violation of the length rule (no fallback_length); '
+        'functions with generated axes, multi-argument calls and numerals on deduced axes are outside this stream',
         'expression_v1 rejects removed legacy syntax (`n:x_i`, `u_,x_i`, `[f]_i`, `dx_i:u`, `<a_i, b_i>_i`) with the builtin SyntaxError and a "no longer supported" message: counted as a rejection']
     broken = c.build_and_audit()
     c.log('lean build + audit done')
